@@ -170,7 +170,14 @@ B_MODELS = [('<xs:element name="a" minOccurs="0"/><xs:element name="a"/>', False
             ('<xs:element name="a"/><xs:element name="b"/>', True),
             ('<xs:element name="x" type="xs:string"/><xs:element name="b"/><xs:element name="x" type="xs:int"/>', False),   # EDC
             ('<xs:element name="a" minOccurs="0"/><xs:element name="b"/>', True),
-            ('<xs:choice><xs:element name="a"/><xs:sequence><xs:element name="a"/><xs:element name="b"/></xs:sequence></xs:choice>', False)]
+            ('<xs:choice><xs:element name="a"/><xs:sequence><xs:element name="a"/><xs:element name="b"/></xs:sequence></xs:choice>', False),
+            # the same named group g = (a) referenced twice: the shared declaration competes with itself along two paths
+            ('<xs:group ref="g" minOccurs="0"/><xs:group ref="g"/>', False),                             # (g?, g) = (a?, a)
+            ('<xs:group ref="g"/><xs:group ref="g"/>', True),                                            # (g, g) = (a, a)
+            ('<xs:choice><xs:group ref="g"/><xs:group ref="g"/></xs:choice>', False),                    # (g | g)
+            ('<xs:group ref="g" maxOccurs="unbounded"/><xs:group ref="g"/>', False),                     # (g+, g)
+            ('<xs:sequence maxOccurs="2"><xs:group ref="g"/><xs:group ref="g" minOccurs="0"/></xs:sequence>', False)]   # (g, g?){1,2}
+B_GROUP = '<xs:group name="g"><xs:sequence><xs:element name="a"/></xs:sequence></xs:group>'
 B_KINDS = ["plain", "restriction-of-wildcard-base", "extension-of-empty-base", "restriction-of-anyType", "local-type-of-element"]
 
 
@@ -198,7 +205,7 @@ def h_strict_build(m: int, k: int) -> bool:
         body = '<xs:complexType name="T"><xs:complexContent><xs:restriction base="xs:anyType">%s</xs:restriction></xs:complexContent></xs:complexType>' % seq
     else:
         body = '<xs:element name="e"><xs:complexType>%s</xs:complexType></xs:element>' % seq
-    text = '<xs:schema xmlns:xs="http://www.w3.org/2001/XMLSchema">%s</xs:schema>' % body
+    text = '<xs:schema xmlns:xs="http://www.w3.org/2001/XMLSchema">%s%s</xs:schema>' % (B_GROUP, body)
     with real_io():
         cls = xmlschema.XMLSchema10 if CFG["version"] == "1.0" else xmlschema.XMLSchema11
         try:
